@@ -57,6 +57,12 @@ def shapes(tier, seed):
         for e in meprogs.ENGINES:
             ident.append((base, ("xfer", base, e)))
     out += [{"kind": "identity", "pairs": ident[i:i + 60]} for i in range(0, len(ident), 60)]
+    # the same with explicitly named materializations after an equal-but-distinct twin tree has been built
+    twins = [_named(p) for b, p in ident if "mat" in repr(p) and ("xfer" in repr(p) or p[-1])][::2]
+    twins = [(p[1], p) for p in twins]
+    out += [{"kind": "identity", "pairs": twins[i:i + 60], "twin": True} for i in range(0, len(twins), 60)]
+    named = [_named(p) for p in content if "mat" in ops_of(p)]
+    out += [{"kind": "content", "progs": named[i:i + 20], "twin": True} for i in range(0, len(named), 20)]
     return out
 
 
@@ -142,6 +148,20 @@ def preserved_problem(before, after):
     return None
 
 
+def _named(node, depth=0):
+    """Give every materialization an explicit, position-derived name (so that separately built trees compare equal)."""
+    if not isinstance(node, tuple) or not node or node[0] == "leaf":
+        return node
+    if node[0] == "mat":
+        return ("mat", _named(node[1], depth + 1), f"m{depth}")
+    return tuple(_named(x, depth + 1) if isinstance(x, tuple) and x and isinstance(x[0], str) and x[0] in (
+        "leaf", "calc", "proj", "sel", "dedup", "sort", "slice", "chain", "join", "mat", "xfer") else x for x in node)
+
+
+def _fresh(node):
+    return tuple(_fresh(x) for x in node) if isinstance(node, tuple) else node
+
+
 def _prefixes(prog):
     """The chain of sub-programs of a unary-chain program, innermost first."""
     out = []
@@ -189,6 +209,8 @@ def run_shape(shape, tier):
             templates.declare(ctx, env, params, cons)
             memo = {}
             try:
+                if shape.get("twin"):
+                    build(_fresh(prog), env, {})  # an equal but distinct tree built first (value vs identity)
                 before = build(base, env, memo) if base is not None else None
                 rel = build(prog, env, memo)
             except (ColumnError, EngineError, RelationalAlgebraError) as e:
@@ -259,6 +281,8 @@ def concrete_check(kind, base, prog, rows, bind):
     env.bind = dict(bind)
     memo = {}
     try:
+        if "'m0'" in repr(prog) or "'m1'" in repr(prog) or "'m2'" in repr(prog) or "'m3'" in repr(prog):
+            build(_fresh(prog), env, {})
         before = build(base, env, memo) if base is not None else None
         rel = build(prog, env, memo)
     except (ColumnError, EngineError, RelationalAlgebraError):
